@@ -10,7 +10,7 @@ import (
 )
 
 func init() {
-	register("C17", 20, "Decided (for every path of the current source): (R1) the server adopts a connection only by CAS from nil, only on the path where the read succeeded and the bytes read equal the client greeting derived by getHelloConstant; nothing is written to a connection before that equality; every other path closes it; (R2) tunnelConn is written at exactly the two adoption sites and tunnel-flagged input is wrapped only there; (R3) the client hands over a connection only when write ok, read ok, reply == server greeting and not timed out, all other paths close it; (R4) greetings come from getHelloConstant with the trigger's/server's id and port; (R5) in-band bytes are not enqueued once the tunnel is agreed; (R6) the client's wait is bounded by a timer arm and a deferred WaitGroup.Done, the writer switches only on a non-nil connection; (R7) the relay adopts by CAS only after both greetings matched. Not decided: arrival-order races in time, connector misbehaviour.",
+	register("C17", 20, "Decided (for every path of the current source): (R1) the server adopts a connection only by CAS from nil, only on the path where the read succeeded and the bytes read equal the client greeting derived by getHelloConstant; nothing is written to a connection before that equality; every other path closes it; (R2) tunnelConn is written at exactly the two adoption sites and tunnel-flagged input is wrapped only there; (R3) the client hands over a connection only when write ok, read ok, reply == server greeting and not timed out, all other paths close it; (R4) greetings come from getHelloConstant with the trigger's/server's id and port; (R5) in-band bytes are not enqueued once the tunnel is agreed; (R6) the client's wait is bounded by a timer arm and a deferred WaitGroup.Done, the writer switches only on a non-nil connection; (R7) the relay adopts by CAS only after both greetings matched. Not decided: arrival-order races in time, connector misbehaviour. Added to R7: the adopted pair is bound to the relay before both of its pumps start.",
 		func(c *Ctx) {
 			c.run("C17-R1", "GUARD-DOM/MUST-PASS: server adoption gate", c17R1)
 			c.run("C17-R2", "WHO-WRITES: tunnelConn writers and tunnel-flagged input wrapping", c17R2)
